@@ -309,6 +309,40 @@ set_option maxRecDepth 4000 in
 example : windowBlockCfg.1.wpc = .exited ∧ (∀ t ∈ windowBlockCfg.2, t.finished = true) ∧
     okFinal (trace windowBlockCfg) = true ∧ (Mon.run (trace windowBlockCfg)).dn 1 = 1 := by decide
 
+/-! ### Flushes: one flush spanning several batches, and a flush request pending while Stop clears `running`
+
+`C08_done_once_per_scheduling` / `C08_written_before_done` / `C08_stop_waits` hold for every reachable configuration,
+hence for these; the examples show that the configurations they are about are reachable (non-vacuity) and give the
+exact traces that the forced scenarios `flush-span` / `flush-stop` of the harness must reproduce on the real code. -/
+
+/-- inside one flush: the writer has just committed a full batch and replaces the collector (`again`) -/
+def flushSpanMidCfg : Cfg St Thread :=
+  runThread sys 3 flushFirst (fun s => s.again && s.wpc = .doneLoop && s.todo.isEmpty) 100
+    (runSched sys (initSt 5 2, flushThreads 5) (rep 0 15 ++ rep 3 6 ++ rep 0 28 ++ rep 1 2))
+
+set_option maxRecDepth 8000 in
+-- batch size 2, five objects queued behind the first BatchWrite: the flush request is taken with three objects still
+-- queued, the first full batch is committed inside the flush loop and the collector is replaced
+example : flushSpanMidCfg.1.fl = true ∧ flushSpanMidCfg.1.again = true ∧ flushSpanMidCfg.1.queue = [2, 3, 4] ∧
+    flushSpanMidCfg.1.wpc = .doneLoop ∧ (Mon.run (trace flushSpanMidCfg)).dn 0 = 1 ∧
+    (Mon.run (trace flushSpanMidCfg)).dn 1 = 1 := by decide
+
+set_option maxRecDepth 8000 in
+-- the complete run: three commits inside one flush (2 + 2 + 1 objects), every object done exactly once, in order
+example : (flushSpanCfg 2 5).1.wpc = .exited ∧ (∀ t ∈ (flushSpanCfg 2 5).2, t.finished = true) ∧
+    okFinal (trace (flushSpanCfg 2 5)) = true ∧
+    (trace (flushSpanCfg 2 5)).filter (fun e => match e with | .commit => true | .done _ => true | _ => false)
+      = [.commit, .done 0, .done 1, .commit, .done 2, .done 3, .commit, .done 4] ∧
+    (List.range 5).all (fun o => (Mon.run (trace (flushSpanCfg 2 5))).dn o = 1) = true := by decide
+
+set_option maxRecDepth 8000 in
+-- a flush request pending when Stop clears `running` (open batch of one object, batch size 3): the batch is
+-- committed and done before Stop returns
+example : (flushStopCfg 1 3).1.wpc = .exited ∧ (∀ t ∈ (flushStopCfg 1 3).2, t.finished = true) ∧
+    okFinal (trace (flushStopCfg 1 3)) = true ∧
+    trace (flushStopCfg 1 3) = [.enqCall 0 0, .hook 0, .schedNew 0, .enqRet 0 0, .reset 0, .write 0 1, .flush,
+      .stopCall 0, .commit, .done 0, .stopRet 0] := by decide
+
 /-! ### Queue size 0 (`WithQueueSize(0)`: the queue is an unbuffered channel)
 
 Every theorem above quantifies over `q`, hence covers `q = 0`, where the model's send is the rendezvous hand-off
